@@ -15,10 +15,10 @@ func init() {
 // C01 - routing selects the documented route with the correct parameters.
 func checkC01(r *Run) {
 	rng := rand.New(rand.NewSource(r.Seed))
-	g := newMatchGen(rng, pick(r, 20, 34), 0, 3, pick(r, 5, 6), pick(r, 120, 220), false)
+	g := newMatchGen(rng, pick(r, 20, 46), 0, 3, pick(r, 5, 6), pick(r, 120, 260), false)
 	runMatchD1(r, g, "direct", false, pick(r, 5*time.Minute, 40*time.Minute))
 	// hostname mode: overlapping host patterns above path patterns with parameters
-	gh := newMatchGen(rng, pick(r, 4, 6), pick(r, 12, 16), 3, 3, pick(r, 30, 50), true)
+	gh := newMatchGen(rng, pick(r, 4, 8), pick(r, 12, 24), 3, 3, pick(r, 30, 60), true)
 	gh.Hosts = append(derivedHostsFirst(gh, pick(r, 8, 14)), "a.b", "a.ab", "a.b.ab")
 	runMatchD1(r, gh, "direct", false, pick(r, 5*time.Minute, 40*time.Minute))
 	runMatchD2(r, false, false)
@@ -29,7 +29,7 @@ func checkC01(r *Run) {
 // C09 - hostname routes match the whole host; path-only routes are the fallback.
 func checkC09(r *Run) {
 	rng := rand.New(rand.NewSource(r.Seed))
-	g := newMatchGen(rng, pick(r, 6, 8), pick(r, 12, 18), 3, 3, pick(r, 24, 40), true)
+	g := newMatchGen(rng, pick(r, 6, 10), pick(r, 12, 28), 3, 3, pick(r, 24, 50), true)
 	runMatchD1(r, g, "all", false, pick(r, 5*time.Minute, 40*time.Minute))
 	runMatchD2(r, false, true)
 	r.assumption("hostname comparison is exact and case-sensitive after removing one port and one trailing dot")
@@ -42,7 +42,7 @@ func checkC08(r *Run) {
 	g.Hosts = derivedHostsFirst(g, pick(r, 4, 8))
 	runMatchD1(r, g, "tsr", true, pick(r, 5*time.Minute, 40*time.Minute))
 	// hostname mode: trailing-slash matches below overlapping hosts (their parameters come from two stages)
-	gh := newMatchGen(rng, pick(r, 4, 6), pick(r, 12, 16), 3, 3, pick(r, 30, 50), true)
+	gh := newMatchGen(rng, pick(r, 4, 8), pick(r, 12, 24), 3, 3, pick(r, 30, 60), true)
 	gh.Hosts = append(derivedHostsFirst(gh, pick(r, 8, 14)), "a.b", "a.ab", "a.b.ab")
 	runMatchD1(r, gh, "tsr", false, pick(r, 5*time.Minute, 40*time.Minute))
 	runServeD1(r, newServeGen(r, rng), "C08", pick(r, 5*time.Minute, 40*time.Minute))
